@@ -18,7 +18,7 @@ Labelled(fr) == LET lo == FMin(fr)  hi == FMax(fr)  a == fr.align  top == P2(fr.
        <<"top-a", top - a>>, <<"top-1", top - 1>>, <<"top", top>>, <<"top+a", top + a>>,
        <<"2top-a", 2 * top - a>>, <<"-top", -top>> >>
 Row(m) == LET fr == SurfaceRange(m)  lab == Labelled(fr) IN
-    [mn |-> m, kind |-> fr.kind, bits |-> fr.bits, align |-> fr.align,
+    [mn |-> m, kind |-> fr.kind, bits |-> fr.bits, align |-> fr.align, nz |-> fr.nz,
      vals |-> IF fr.kind = "n" THEN << >>
               ELSE [k \in 1..Len(lab) |->
                        [label |-> lab[k][1], v |-> lab[k][2], inside |-> Representable(fr, lab[k][2])]]]
